@@ -12,7 +12,8 @@ import (
 
 // PState is the spec-visible state of one process.
 type PState struct {
-	PC     string
+	PC     string // spec-level pc value
+	Label  string // label as the generated Go names it ("Arch.lbl" / "proc.lbl"); "" = Arch.Name + "." + PC
 	Locals map[string]tla.Value // resource name -> value (archetype locals, value params, ".stack")
 }
 
@@ -32,7 +33,7 @@ func (st *State) clone() *State {
 		for k, v := range p.Locals {
 			m[k] = v
 		}
-		n.P[i] = PState{PC: p.PC, Locals: m}
+		n.P[i] = PState{PC: p.PC, Label: p.Label, Locals: m}
 	}
 	return n
 }
@@ -80,7 +81,7 @@ func (s *System) InitialState() (*State, error) {
 		if err != errStopped {
 			return nil, fmt.Errorf("initial run of %s(%v): %v", p.Arch.Name, p.Self, err)
 		}
-		ps := PState{PC: stripArch(p.Arch.Label), Locals: map[string]tla.Value{}}
+		ps := PState{PC: p.pcName(p.Arch.Label), Label: p.Arch.Label, Locals: map[string]tla.Value{}}
 		for _, l := range p.Locals {
 			ps.Locals[l.Res] = ctx.IFace().ReadArchetypeResourceLocal(l.Res)
 		}
@@ -123,11 +124,14 @@ func (s *System) StepFrom(st *State, pi int) (bool, *State, []Choice, error) {
 			return false, nil, p.choices, nil
 		}
 		cur.G = s.W.Snapshot()
-		cur.P[pi] = PState{PC: a.PC, Locals: a.Locals}
+		cur.P[pi] = PState{PC: a.PC, Label: a.PC, Locals: a.Locals}
 		return true, cur, p.choices, nil
 	}
 	arch := p.Arch
-	arch.Label = arch.Name + "." + cur.P[pi].PC
+	arch.Label = cur.P[pi].Label
+	if arch.Label == "" {
+		arch.Label = arch.Name + "." + cur.P[pi].PC
+	}
 	orig := p.Arch.PreAmble
 	locals := cur.P[pi].Locals
 	arch.PreAmble = func(iface distsys.ArchetypeInterface) {
@@ -149,7 +153,8 @@ func (s *System) StepFrom(st *State, pi int) (bool, *State, []Choice, error) {
 	if rec.ev == nil || rec.ev.IsAbort {
 		return false, nil, p.choices, nil
 	}
-	ps := PState{PC: stripArch(ctx.IFace().ReadArchetypeResourceLocal(".pc").AsString()), Locals: map[string]tla.Value{}}
+	newLabel := ctx.IFace().ReadArchetypeResourceLocal(".pc").AsString()
+	ps := PState{PC: p.pcName(newLabel), Label: newLabel, Locals: map[string]tla.Value{}}
 	for name := range locals {
 		ps.Locals[name] = ctx.IFace().ReadArchetypeResourceLocal(name)
 	}
@@ -171,14 +176,18 @@ func (s *System) Dump(st *State) string {
 	}
 	type kv struct{ self, val string }
 	locals := map[string][]kv{}
+	singles := map[string]bool{}
 	var names []string
+	single := false
 	add := func(n, self, val string) {
 		if _, ok := locals[n]; !ok {
 			names = append(names, n)
 		}
 		locals[n] = append(locals[n], kv{self, val})
+		singles[n] = singles[n] || single
 	}
 	for i, p := range s.Procs {
+		single = p.Single
 		if p.Actor != nil {
 			for n, v := range st.P[i].Locals {
 				add(n, p.Self.String(), v.String())
@@ -197,6 +206,10 @@ func (s *System) Dump(st *State) string {
 	}
 	sort.Strings(names)
 	for _, n := range names {
+		if singles[n] {
+			parts = append(parts, n+" |-> "+locals[n][0].val)
+			continue
+		}
 		var es []string
 		for _, e := range locals[n] {
 			es = append(es, fmt.Sprintf("(%s :> %s)", e.self, e.val))
